@@ -174,6 +174,46 @@ pub broadcast proof fn lemma_one_byte(s: Seq<u8>)
 }
 
 // ---- arithmetic lemmas
+// body-independent facts: a narrowing cast is the mask (r_info splits written as `as u32` / `as u8`)
+pub proof fn lemma_trunc_forms()
+    ensures
+        forall|x: u64| (#[trigger] (x as u32)) == (x & 0xffff_ffffu64) as u32,
+        forall|x: u32| (#[trigger] (x as u8)) == (x & 0xffu32) as u8,
+        forall|x: u32| ((#[trigger] (x as u8)) as u32) == (x & 0xffu32),
+        forall|x: u64| ((#[trigger] (x as u32)) as u64) == (x & 0xffff_ffffu64),
+{
+    assert forall|x: u64| (#[trigger] (x as u32)) == (x & 0xffff_ffffu64) as u32 by { assert((x as u32) == (x & 0xffff_ffffu64) as u32) by (bit_vector); }
+    assert forall|x: u32| (#[trigger] (x as u8)) == (x & 0xffu32) as u8 by { assert((x as u8) == (x & 0xffu32) as u8) by (bit_vector); }
+    assert forall|x: u32| ((#[trigger] (x as u8)) as u32) == (x & 0xffu32) by { assert(((x as u8) as u32) == (x & 0xffu32)) by (bit_vector); }
+    assert forall|x: u64| ((#[trigger] (x as u32)) as u64) == (x & 0xffff_ffffu64) by { assert(((x as u32) as u64) == (x & 0xffff_ffffu64)) by (bit_vector); }
+}
+
+// body-independent facts: a left shift of a u32 is the wrapping multiplication by the power of two (hash steps written with shifts)
+pub proof fn lemma_shl5(h: u32)
+    ensures (h << 5u32) as int == (h as int * 32) % 0x1_0000_0000
+{
+    let w: u64 = (h as u64) << 5u64;
+    assert(w == (h as u64) * 32) by (bit_vector) requires w == (h as u64) << 5u64;
+    assert((h << 5u32) as u64 == w & 0xffff_ffffu64) by (bit_vector) requires w == (h as u64) << 5u64;
+    assert(w & 0xffff_ffffu64 == w % 0x1_0000_0000u64) by (bit_vector);
+}
+pub proof fn lemma_shl4(h: u32)
+    ensures (h << 4u32) as int == (h as int * 16) % 0x1_0000_0000
+{
+    let w: u64 = (h as u64) << 4u64;
+    assert(w == (h as u64) * 16) by (bit_vector) requires w == (h as u64) << 4u64;
+    assert((h << 4u32) as u64 == w & 0xffff_ffffu64) by (bit_vector) requires w == (h as u64) << 4u64;
+    assert(w & 0xffff_ffffu64 == w % 0x1_0000_0000u64) by (bit_vector);
+}
+pub proof fn lemma_shl_forms()
+    ensures
+        forall|h: u32| (#[trigger] (h << 5u32)) as int == (h as int * 32) % 0x1_0000_0000,
+        forall|h: u32| (#[trigger] (h << 4u32)) as int == (h as int * 16) % 0x1_0000_0000,
+{
+    assert forall|h: u32| (#[trigger] (h << 5u32)) as int == (h as int * 32) % 0x1_0000_0000 by { lemma_shl5(h); }
+    assert forall|h: u32| (#[trigger] (h << 4u32)) as int == (h as int * 16) % 0x1_0000_0000 by { lemma_shl4(h); }
+}
+
 // body-independent facts about equivalent formulations of the GNU hash comparison (bit 0 ignored) and of the stop-bit test
 pub proof fn lemma_gnu_bit_forms()
     ensures
